@@ -5,6 +5,7 @@ NOT_APPLICABLE = {}
 
 CHECKS = {
  "C05": {
+  "bins": ["glob"], "specs": ["glob"],
   "level": "model_checking",
   "technique": "TLA+ model of the matcher loop checked by TLC against the denotational Match; TLC-generated (pattern,text) vectors replayed on wildcard_match; random pairs trace-validated by TLC",
   "text": "TLC explores the algorithm model (one action per loop iteration) for every pattern<=6 x text<=8 over {*,a,b}/{a,b} and proves termination with the denotational answer; the same exhaustive pair space is replayed on the real matcher under four character mappings and two entry points, and random long pairs recorded from the real code are validated by TLC.",
